@@ -104,9 +104,9 @@ let handle kind a =
       let opt_pos s = if s = "0" then None else Some (n_of_dec s) in
       let recs = List.map (fun r ->
         match split_on '|' r with
-        | [_; rid; pos; cg; sq] ->
+        | [fl; rid; pos; cg; sq] ->
             let seq = bytes_of_hex sq in
-            srec_of (opt_n rid) (opt_pos pos) (parse_cigar cg) seq (List.map (fun _ -> n_of_int 30) seq)
+            srec_of (int_of_string fl land 4 <> 0) (opt_n rid) (opt_pos pos) (parse_cigar cg) seq (List.map (fun _ -> n_of_int 30) seq)
         | _ -> failwith "shdr record") (split_on ';' a.(3)) in
       (match shdr_rows refsq rps recs with
        | SErr _ -> Some "Err:InvalidInput"
